@@ -205,7 +205,8 @@ class C03(Check):
                 m.open = sim_open
                 try:
                     try:
-                        insp = m.detect_file_format('/sim/image')
+                        insp = m.detect_file_format(
+                            imgsim.image_on_disk(data))
                         final = None if insp is None else str(insp)
                     except m.ImageFormatError:
                         final = 'ImageFormatError'
@@ -213,8 +214,12 @@ class C03(Check):
                         final = core.exc_name(e)
                 finally:
                     del m.open
-                if case.get('short'):
+                if case.get('short') and files:
                     bump(fa, 'short_read')
+                if not files:
+                    # this tree opens files some other way: it read the
+                    # real file, short reads were not in effect
+                    bump(pr, 'open_seam_unavailable')
                 if files and files[0].closed < 1:
                     # resource hygiene, not part of the statement
                     bump(pr, 'file_left_open')
@@ -436,7 +441,7 @@ class C03(Check):
             m.open = sim_open
             try:
                 try:
-                    insp = m.detect_file_format('/sim/image')
+                    insp = m.detect_file_format(imgsim.image_on_disk(data))
                     return None if insp is None else str(insp)
                 except m.ImageFormatError:
                     return 'ImageFormatError'
